@@ -8,7 +8,7 @@
 //@ outside: decoding of the envelope (msgpack), routing of the error to "previous data returned" (runner.rs), other pre-release strings
 //@ harness: name=c21_release_versions props=C21 cap=1800 cost=120 sym="major, minor, patch: any u64" bound="pre-release and build metadata empty; unwind 12"
 //@ harness: name=c21_prerelease_versions props=C21 cap=1800 cost=200 sym="major, minor, patch: any u64" bound="pre-release = alpha; unwind 12"
-//@ harness: name=c21_min_version_is_0_61_0 props=C21 cap=900 cost=40 sym="none (concrete): the constant behind the check" bound="-"
+//@ harness: name=c21_min_version_is_0_61_0 trivial=1 props=C21 cap=900 cost=40 sym="none (concrete): the constant behind the check" bound="-"
 
 use super::*;
 include!("_air_stubs.rs");
